@@ -53,24 +53,25 @@ mod set_reach__src1;
 mod bset__pari;
 mod opt_lat__pari;
 mod lat_two_keys__par;
-mod count_paths__par;
-mod count_paths__src1;
-mod neg_basic__pari;
-mod neg_basic__src2;
-mod neg_basic__permpar;
-mod agg_depth__pari;
-mod agg_user__ser;
-mod agg_bound_mix__ser;
-mod disj__ser;
-mod disj__src0;
-mod disj__perm2;
-mod disj_nested__exp;
-mod rep_expr__par;
-mod multi_head_disj__exppar;
-mod mac_basic__pari;
-mod mac_basic__src2;
-mod mac_capture__par;
-mod mac_nested__exppar;
+mod lat_val_bound__par;
+mod count_paths__mrt;
+mod count_paths__srcpar;
+mod neg_basic__gen;
+mod neg_basic__perm1;
+mod agg_minmaxsum__pari;
+mod agg_lattice__pari;
+mod neg_rec_after__pari;
+mod agg_empty__pari;
+mod disj__run;
+mod disj__runpar;
+mod disj_nested__ser;
+mod pat_args__exp;
+mod multi_head_disj__par;
+mod neg_in_disj__exppar;
+mod mac_basic__gen;
+mod mac_basic__exp;
+mod mac_nested__par;
+mod mac_disj__exppar;
 
 fn lookup(name: &str) -> fn() -> Box<dyn Driven> {
    match name {
@@ -119,24 +120,25 @@ fn lookup(name: &str) -> fn() -> Box<dyn Driven> {
       "bset__pari" => bset__pari::make,
       "opt_lat__pari" => opt_lat__pari::make,
       "lat_two_keys__par" => lat_two_keys__par::make,
-      "count_paths__par" => count_paths__par::make,
-      "count_paths__src1" => count_paths__src1::make,
-      "neg_basic__pari" => neg_basic__pari::make,
-      "neg_basic__src2" => neg_basic__src2::make,
-      "neg_basic__permpar" => neg_basic__permpar::make,
-      "agg_depth__pari" => agg_depth__pari::make,
-      "agg_user__ser" => agg_user__ser::make,
-      "agg_bound_mix__ser" => agg_bound_mix__ser::make,
-      "disj__ser" => disj__ser::make,
-      "disj__src0" => disj__src0::make,
-      "disj__perm2" => disj__perm2::make,
-      "disj_nested__exp" => disj_nested__exp::make,
-      "rep_expr__par" => rep_expr__par::make,
-      "multi_head_disj__exppar" => multi_head_disj__exppar::make,
-      "mac_basic__pari" => mac_basic__pari::make,
-      "mac_basic__src2" => mac_basic__src2::make,
-      "mac_capture__par" => mac_capture__par::make,
-      "mac_nested__exppar" => mac_nested__exppar::make,
+      "lat_val_bound__par" => lat_val_bound__par::make,
+      "count_paths__mrt" => count_paths__mrt::make,
+      "count_paths__srcpar" => count_paths__srcpar::make,
+      "neg_basic__gen" => neg_basic__gen::make,
+      "neg_basic__perm1" => neg_basic__perm1::make,
+      "agg_minmaxsum__pari" => agg_minmaxsum__pari::make,
+      "agg_lattice__pari" => agg_lattice__pari::make,
+      "neg_rec_after__pari" => neg_rec_after__pari::make,
+      "agg_empty__pari" => agg_empty__pari::make,
+      "disj__run" => disj__run::make,
+      "disj__runpar" => disj__runpar::make,
+      "disj_nested__ser" => disj_nested__ser::make,
+      "pat_args__exp" => pat_args__exp::make,
+      "multi_head_disj__par" => multi_head_disj__par::make,
+      "neg_in_disj__exppar" => neg_in_disj__exppar::make,
+      "mac_basic__gen" => mac_basic__gen::make,
+      "mac_basic__exp" => mac_basic__exp::make,
+      "mac_nested__par" => mac_nested__par::make,
+      "mac_disj__exppar" => mac_disj__exppar::make,
       _ => panic!("no such program variant in this shard: {}", name),
    }
 }
